@@ -10,7 +10,35 @@ META = {
 }
 
 
+def table_rows(repo):
+    """opcode -> operand type codes, read mechanically from the real sources (isa.h enum values, isa.c INSTRn rows)"""
+    import os, re
+    h = open(os.path.join(repo, "src/nanoisa/isa.h")).read()
+    c = open(os.path.join(repo, "src/nanoisa/isa.c")).read()
+    opc = {m.group(1): int(m.group(2), 16) for m in re.finditer(r"\b(OP_\w+)\s*=\s*(0x[0-9A-Fa-f]+)", h)}
+    tcode = {"OPERAND_NONE": 0, "OPERAND_U8": 1, "OPERAND_U16": 2, "OPERAND_U32": 3, "OPERAND_I32": 4, "OPERAND_I64": 5, "OPERAND_F64": 6}
+    rows = {}
+    for m in re.finditer(r"INSTR([0-3])\((OP_\w+)\s*,\s*\"\w+\"((?:\s*,\s*OPERAND_\w+)*)\)", c):
+        n, op, rest = int(m.group(1)), m.group(2), m.group(3)
+        ts = [tcode[t] for t in re.findall(r"OPERAND_\w+", rest)]
+        if op in opc and len(ts) == n:
+            rows[opc[op]] = ts
+    return rows
+
+
+def emit_obligations(repo):
+    obs = []
+    for K, ts in sorted(table_rows(repo).items()):
+        d = {"VERIF_K": K, "VERIF_NARGS": len(ts)}
+        for i, t in enumerate(ts):
+            d["VERIF_T%d" % (i + 1)] = t
+        obs.append(dict(id="C19.emit.%d" % K, prop="C19", harness="harness/emit_h.c", entry="h_emit", defines=d,
+                        include_repo=["src"], unwind=9, unwindset=["code_ensure.0:4"], object_bits=10, strength="X",
+                        functions=["emit_op", "code_ensure"], must_have=[r"C19\.emit", r"COVER"], min_checks=20, timeout=300))
+    return obs
+
+
 def obligations(repo):
-    return [dict(id="C19.enc.%d" % K, prop="C19", harness="harness/isa_h.c", entry="h_det_enc", defines={"VERIF_K": K},
+    return emit_obligations(repo) + [dict(id="C19.enc.%d" % K, prop="C19", harness="harness/isa_h.c", entry="h_det_enc", defines={"VERIF_K": K},
                  unwind=33, strength="X", functions=["isa_encode"], must_have=[r"C19\.enc", r"COVER"], min_checks=20)
             for K in range(256)]
